@@ -22,6 +22,7 @@ import copy
 import datetime as dt
 import json
 import sys
+import time
 
 import pytz
 
@@ -57,6 +58,9 @@ stix2.versioning.get_timestamp = CLOCK
 
 
 # ---- value encoding -------------------------------------------------------
+# the process time zone is whatever TZ says (the harness runs a share of the workers in non-UTC zones)
+time.tzset()
+
 def dec(v):
     if "j" in v:
         return copy.deepcopy(v["j"])
